@@ -32,10 +32,12 @@ const (
 	kHandlerLookup
 	kIgnoreCloneStash
 	kHostIgnoreLookup
+	kInfix2Ignore
+	kHostInfixIgnore
 	nKinds
 )
 
-var kindNames = [...]string{"direct(2 params)", "ignored-slash", "redirect", "404", "405", "OPTIONS", "Lookup+Close", "Lookup+Clone", "handler-CloneWith", "handler-Clone-stash", "hostname-direct", "infix-catch-all", "iterators-left-early", "handler-Lookup-inside", "ignored-slash-Clone-stash", "static-hostname-ignored-slash+Lookup-inside"}
+var kindNames = [...]string{"direct(2 params)", "ignored-slash", "redirect", "404", "405", "OPTIONS", "Lookup+Close", "Lookup+Clone", "handler-CloneWith", "handler-Clone-stash", "hostname-direct", "infix-catch-all", "iterators-left-early", "handler-Lookup-inside", "ignored-slash-Clone-stash", "static-hostname-ignored-slash+Lookup-inside", "two-infix-catch-alls-ignored-slash", "hostname-infix-catch-all-ignored-slash"}
 
 // world is one router plus the bookkeeping of one execution.
 type world struct {
@@ -247,6 +249,11 @@ func newWorld(withHost bool) *world {
 		w.stashClone(c, c.Clone())
 		w.respond(c)
 	}, fox.WithIgnoreTrailingSlash(true)))
+	// slash-adjusted matches found while the lookup runs on a pooled sub-context (second infix catch-all)
+	must(f.Handle("GET", "/d/*{w}/m/*{a}/z/", func(c fox.Context) {
+		w.observe(c, "/d/*{w}/m/*{a}/z/", fox.RouteHandler, []string{"w", "a"}, true)
+		w.respond(c)
+	}, fox.WithIgnoreTrailingSlash(true)))
 	// the handler looks another request up while its own context is live, then re-reads its own
 	must(f.Handle("GET", "/hl/{a}", func(c fox.Context) {
 		w.observe(c, "/hl/{a}", fox.RouteHandler, []string{"a"}, true)
@@ -269,6 +276,11 @@ func newWorld(withHost bool) *world {
 		w.respond(c)
 	}))
 	if withHost {
+		// ... and on the sub-context of the hostname lookup
+		must(f.Handle("GET", "{h}.host2/f/*{w}/meta/", func(c fox.Context) {
+			w.observe(c, "{h}.host2/f/*{w}/meta/", fox.RouteHandler, []string{"h", "w"}, true)
+			w.respond(c)
+		}, fox.WithIgnoreTrailingSlash(true)))
 		// a static-hostname route with a path parameter, reached by an ignored trailing slash; its handler
 		// looks up another slash-adjusted request while its own context is live
 		must(f.Handle("GET", "static.host/hi/{a}/", func(c fox.Context) {
@@ -348,6 +360,10 @@ func (w *world) issue(kind int) {
 		w.f.ServeHTTP(rw, w.req("GET", "", "/ic/"+tok+"a"))
 	case kHostIgnoreLookup:
 		w.f.ServeHTTP(rw, w.req("GET", "static.host", "/hi/"+tok+"a"))
+	case kInfix2Ignore:
+		w.f.ServeHTTP(rw, w.req("GET", "", "/d/"+tok+"a/m/"+tok+"b/z"))
+	case kHostInfixIgnore:
+		w.f.ServeHTTP(rw, w.req("GET", tok+"a.host2", "/f/"+tok+"b/meta"))
 	case kIterBreak:
 		// every iterator consumed completely once and left at its first element once
 		it := w.f.Iter()
@@ -496,7 +512,7 @@ func sequences(maxLen int, kinds []int, withReplace bool) []Seq {
 				}
 				hasHostKind := false
 				for _, k := range cur {
-					if k == kHostDirect || k == kHostIgnoreLookup {
+					if k == kHostDirect || k == kHostIgnoreLookup || k == kHostInfixIgnore {
 						hasHostKind = true
 					}
 				}
@@ -627,7 +643,7 @@ func init() {
 	mc.Register(&mc.Check{
 		ID:    "C12",
 		Level: "model_checking",
-		Rule: "every sequence up to a length of requests from a 16-kind alphabet (direct, ignored slash, redirect, 404, 405, OPTIONS, manual Lookup(+Clone), CloneWith, Clone, hostname, infix catch-all, every iterator consumed fully and left at its first element, a handler doing a Lookup for another request, a slash-adjusted match whose handler keeps a Clone, a static-hostname slash-adjusted match whose handler looks up another slash-adjusted request), with an optional tree replacement before each request, x EVERY answer of the context pool at every Pool.Get (any of the pooled contexts or a fresh one: data choice points of the controlled scheduler); every request carries a unique token in every observable field and every Context getter is checked inside every handler; stashed clones are re-read after every later request; " +
+		Rule: "every sequence up to a length of requests from an 18-kind alphabet (direct, ignored slash, redirect, 404, 405, OPTIONS, manual Lookup(+Clone), CloneWith, Clone, hostname, infix catch-all, every iterator consumed fully and left at its first element, a handler doing a Lookup for another request, a slash-adjusted match whose handler keeps a Clone, a static-hostname slash-adjusted match whose handler looks up another slash-adjusted request), with an optional tree replacement before each request, x EVERY answer of the context pool at every Pool.Get (any of the pooled contexts or a fresh one: data choice points of the controlled scheduler); every request carries a unique token in every observable field and every Context getter is checked inside every handler; stashed clones are re-read after every later request; " +
 			"plus two-thread schedules; distinct_nontrivial = distinct (sequence, outcome) classes",
 		Assumptions: []string{
 			"sync.Pool may return any previously Put object or a fresh one: the shim makes that choice explicit and the explorer enumerates it",
@@ -640,11 +656,11 @@ func init() {
 				if c.Quick() {
 					seqs = sequences(2, kinds, true)
 					// length 3 over the kinds that leave most state behind
-					seqs = dedupSeqs(append(seqs, sequences(3, []int{kIgnoreSlash, kNotFound, kLookupClone, kCloneStash, kDirect, kHandlerLookup, kIgnoreCloneStash, kHostIgnoreLookup}, false)...))
+					seqs = dedupSeqs(append(seqs, sequences(3, []int{kIgnoreSlash, kNotFound, kLookupClone, kCloneStash, kDirect, kHandlerLookup, kIgnoreCloneStash, kHostIgnoreLookup, kInfix2Ignore, kHostInfixIgnore}, false)...))
 				} else {
 					seqs = sequences(maxLen, kinds, true)
 				}
-				r.Bounds["sequences"] = fmt.Sprintf("%d sequences (16 kinds; quick: all of length<=2 with tree replacement + length 3 over 8 kinds; thorough: all of length<=3 with tree replacement), unbounded exploration of pool answers", len(seqs))
+				r.Bounds["sequences"] = fmt.Sprintf("%d sequences (18 kinds; quick: all of length<=2 with tree replacement + length 3 over 10 kinds; thorough: all of length<=3 with tree replacement), unbounded exploration of pool answers", len(seqs))
 				for i, s := range seqs {
 					if !c.Mine(i) {
 						continue
